@@ -3,7 +3,10 @@
 (* step that fails) as NDJSON into IOEnv.GEN_FILE; the harness replays each  *)
 (* against the real code with faults injected at the I/O seam.               *)
 EXTENDS CleanWrite, TLC, Json, IOUtils, FiniteSetsExt, SequencesExt
-Schedules == {[mode |-> m, fault |-> f] : m \in Modes, f \in Faults}
-Valid == {s \in Schedules : s.fault \in FaultsOf(s.mode)}
+\* the error the failing step raises: ENOSPC / EIO are OSError, EPIPE is BrokenPipeError
+Errors == {"ENOSPC", "EIO", "EPIPE"}
+IOFaults == {"open", "write", "flush", "close"}
+Schedules == {[mode |-> m, fault |-> f, err |-> e] : m \in Modes, f \in Faults, e \in Errors}
+Valid == {s \in Schedules : s.fault \in FaultsOf(s.mode) /\ (s.fault \notin IOFaults => s.err = "EIO")}
 ASSUME ndJsonSerialize(IOEnv.GEN_FILE, SetToSeq(Valid))
 =============================================================================
